@@ -585,6 +585,10 @@ def tree_size(t):
 
 
 # ----------------------------------------------------------------------------- host value specs (JSON)
+class HostInt(int):
+    """What a host may well pass for an int: a subclass instance."""
+
+
 def dec_value(spec, DecimalCls=Decimal):
     """JSON spec -> Python value the *host* supplies."""
     if spec is None or isinstance(spec, (bool, str)):
@@ -598,6 +602,11 @@ def dec_value(spec, DecimalCls=Decimal):
             return DecimalCls(spec['d'])
         if 'i' in spec:
             return int(spec['i'])
+        if 'isub' in spec:
+            return HostInt(spec['isub'])            # an int subclass instance (money in cents, an id type ...)
+        if 'ienum' in spec:
+            import enum
+            return enum.IntEnum('HostUnit', {'V': int(spec['ienum'])}).V
         if 'f' in spec:
             return float(spec['f'])
         if 'm' in spec:
